@@ -150,7 +150,7 @@ func dnsName(akind int, seed uint32) string {
 // tcpTargetIP: where the scripted target of this kind listens
 func tcpTargetIP(akind int) string {
 	switch {
-	case akind == 1:
+	case akind == 1 || akind == 33:
 		return "::1"
 	case akind >= 4 && akind <= 15:
 		return targetKinds[akind].ip
@@ -192,6 +192,8 @@ func addrBytes(akind, port int) []byte {
 		return append(append([]byte{3, 9}, []byte("127.0.0.1")...), p...)
 	case 3:
 		return append(append([]byte{3, 9}, []byte("localhost")...), p...)
+	case 33: // an IPv6 literal with a zone, written as a domain name: net.ParseIP does not accept it
+		return append(append([]byte{3, 6}, []byte("::1%lo")...), p...)
 	}
 	// malformed and boundary forms (C18), mirrored in Corr/TCP.v addr_bytes
 	switch akind {
